@@ -335,12 +335,17 @@ func (x *Exec) Run() {
 	s.active.Store(true)
 	defer func() {
 		s.active.Store(false)
-		// release whatever is still parked (pass-through from now on)
+		// release whatever is still parked (pass-through from now on) - unless a thread panicked: then the system
+		// under test is broken, and its remaining threads, released, would run on uncontrolled (their `go` statements
+		// are plain goroutines without recover once the scheduler is inactive) and can bring the process down before
+		// the report is written. They stay parked for good; the caller must treat the instance as dead.
 		s.mu.Lock()
-		for _, t := range s.threads {
-			if t.parked {
-				t.parked = false
-				close(t.resume)
+		if len(s.panics) == 0 {
+			for _, t := range s.threads {
+				if t.parked {
+					t.parked = false
+					close(t.resume)
+				}
 			}
 		}
 		s.mu.Unlock()
